@@ -139,6 +139,14 @@ CLAIMED["C07"] = {
     "technique": "constructor-image extraction from MIR aggregates and slice lists laid against layout tables, parameter provenance by term identity, enum discriminant tables",
 }
 
+CLAIMED["C17"] = {
+    "category": "other",
+    "text": "Build side: each of the three string constructors is exactly two guarded new_boxed calls - [fixed pieces, s.bytes] when s.bytes.ends_with(&[0]), [fixed pieces, s.bytes, &[0]] otherwise - so with C16 the size is fixed + len (+1) and exactly one NUL is stored for NUL-free strings. Parse side: each accessor is parse_slice_as_string over exactly the tail field (whose extent is [fixed, size) by C05); the decoder is CStr::from_bytes_until_nul(..).map_err(MissingNul)? then to_str().map_err(Utf8) and nothing else; the accessors' closures have no panic edge. That the std functions stop at the first NUL inside the slice and validate UTF-8 is their contract.",
+    "design_ref": "DESIGN.md §4 C17",
+    "note": TB + "; imports C05, C16; std CStr contracts trusted",
+    "technique": "guarded-call chain extraction + slice-list terms + callee identity + panic census",
+}
+
 PENDING = "check not yet built in this session (machinery under construction; see DESIGN.md §9 build order) - not claimed until its premises run, pass on the repaired tree and fire on seeded breaks"
 NOT_APPLICABLE = {("C%02d" % i): PENDING for i in range(1, 21)}
 
